@@ -154,8 +154,9 @@ def printProducts(ostrm, productName=None, versionName=None, eupsenv=None,
             if not includeProduct(recursionDepth) or (checkCycles and not topological):
                 continue
 
-            if eupsenv.verbose or not product.name in _msgs:
-                _msgs[product.name] = product.version
+            # a product is printed once; two versions of one product are two products, and both are listed
+            if eupsenv.verbose or not (product.name, product.version) in _msgs:
+                _msgs[(product.name, product.version)] = 1
 
                 if not re.search(r"==", depth):
                     indent = "| "*(recursionDepth//2)
